@@ -107,6 +107,8 @@ def arity(d):
     if "w" in d:
         return arity(d["of"]) + (d["k"] if d["w"] == "controlled" else 0)
     n = d["g"]
+    if n == "named":
+        return 1
     if n in ("custom2", "custom2p", "CNOT", "CZ", "SWAP", "ISWAP", "CPHASE", "XX", "YY", "ZZ", "XY", "MS"):
         return 2
     if n == "custom3":
